@@ -303,6 +303,8 @@ func (c *RetryClient) SetClient(ctx context.Context, cli *BaseClient) {
 	go func() {
 		connected := false
 		ctx := context.Background()
+		// chConnSwitch is the switch channel of the client whose Connect this goroutine has seen succeed.
+		var chConnSwitch chan struct{}
 
 	L_TASK:
 		for {
@@ -311,7 +313,7 @@ func (c *RetryClient) SetClient(ctx context.Context, cli *BaseClient) {
 				for {
 					c.mu.RLock()
 					chConnectErr := c.chConnectErr
-					chConnSwitch := c.chConnSwitch
+					chConnSwitch = c.chConnSwitch
 					c.mu.RUnlock()
 					select {
 					case _, ok := <-chConnectErr:
@@ -325,7 +327,6 @@ func (c *RetryClient) SetClient(ctx context.Context, cli *BaseClient) {
 			}
 
 			c.mu.Lock()
-			chConnSwitch := c.chConnSwitch
 			select {
 			case <-chConnSwitch:
 				c.mu.Unlock()
